@@ -62,8 +62,9 @@ type pw struct {
 	node         map[int]string
 	events       []string
 	failCreateCR bool
-	failPodGet   bool // one-shot: the next read of a Pod object BY A CONTROLLER fails with a server error
-	inCtl        bool // a controller entry point is running (the harness's own reads never fail)
+	failPodGet   bool                 // one-shot: the next read of a Pod object BY A CONTROLLER fails with a server error
+	inCtl        bool                 // a controller entry point is running (the harness's own reads never fail)
+	observed     map[string]time.Time // record name -> when the PodENI controller last demonstrably saw the pod alive (harness ground truth)
 	prevPhase    map[string]string
 	hadCR        map[string]bool
 	logMark      int
@@ -184,6 +185,18 @@ func (w *pw) Apply(x *vrt.Exec, evn string) {
 		}
 	}
 	w.logMark = len(w.cloud.Log)
+	if w.observed == nil {
+		w.observed = map[string]time.Time{}
+	}
+	evStart := vrt.TimeNow()
+	podGetFaultArmed := w.failPodGet
+	aliveAtStart := map[int]bool{}
+	for k := range w.cfg.Kinds {
+		// a pod whose sandbox has exited no longer needs its interface: the collector does not refresh the stamp for it
+		if p := w.pod(k); p != nil && p.DeletionTimestamp.IsZero() && p.Status.Phase != corev1.PodSucceeded && p.Status.Phase != corev1.PodFailed {
+			aliveAtStart[k] = true
+		}
+	}
 	crFaultArmed := w.failCreateCR
 	f := strings.Split(evn, ":")
 	var i int
@@ -266,6 +279,22 @@ func (w *pw) Apply(x *vrt.Exec, evn string) {
 	for _, c := range w.cloud.Log[w.logMark:] {
 		if c.Op == "Create" && c.ENI != "" {
 			w.created[c.ENI] = true
+		}
+	}
+	// ground truth for "since the controller last observed the pod": the collector reads every record's pod; a bind is
+	// done for a pod the controller has just read
+	switch f[0] {
+	case "gcCR":
+		if !podGetFaultArmed {
+			for k := range w.cfg.Kinds {
+				if aliveAtStart[k] && w.cr(k) != nil {
+					w.observed[w.podName(k)] = evStart
+				}
+			}
+		}
+	case "reconcilePodENI":
+		if cr := w.cr(i); aliveAtStart[i] && cr != nil && phaseOf(cr) == string(v1beta1.ENIPhaseBind) && w.prevPhase[cr.Name] != "ph:"+string(v1beta1.ENIPhaseBind) {
+			w.observed[cr.Name] = evStart
 		}
 	}
 	// (d, immediate form) a reconcilePod whose creation failed — at an interface or at the PodENI create call — has
@@ -366,6 +395,14 @@ func (w *pw) Apply(x *vrt.Exec, evn string) {
 			x.Failf("C11/fixed-record-released-outside-collector", "fixed-IP record %s moved to Deleting/removed by %s; %s", name, evn, hist)
 		case age < ttl:
 			x.Failf("C11/fixed-record-released-before-ttl", "fixed-IP record %s released %v after the pod was last seen, TTL %v; %s", name, age, ttl, hist)
+		default:
+			// the record's own last-seen stamp may be stale: the controller demonstrably saw the pod later (a bind for the
+			// live pod, or a collector pass while it lived)
+			if o, ok := w.observed[name]; ok && o.After(prev.Status.PodLastSeen.Time) {
+				if age2 := vrt.TimeNow().Add(-time.Second).Sub(o); age2 < ttl {
+					x.Failf("C11/fixed-record-released-before-ttl-since-last-observation", "fixed-IP record %s released %v after the controller last saw its pod alive (its last-seen stamp is %v older than that observation), TTL %v; %s", name, age2, o.Sub(prev.Status.PodLastSeen.Time), ttl, hist)
+				}
+			}
 		}
 	}
 	w.lastCR = map[string]*v1beta1.PodENI{}
